@@ -143,6 +143,13 @@ impl RevocationBitmap {
   fn deserialize_slice(data: &[u8]) -> Result<Self, RevocationError> {
     RoaringBitmap::deserialize_from(data)
       .map_err(RevocationError::BitmapDecodingError)
+      // Rebuild the bitmap from its values: the containers of a bitmap read from a serialization that uses run
+      // containers (as other encoders of the standard format write them) are not in the form the in-memory
+      // operations and `serialize_into` rely on, and the next update would write an undecodable endpoint.
+      .and_then(|bitmap| {
+        RoaringBitmap::from_sorted_iter(bitmap.iter())
+          .map_err(|_| RevocationError::InvalidService("revocation bitmap values are not sorted"))
+      })
       .map(Self)
   }
 
